@@ -221,7 +221,9 @@ func (t *callTracer) CaptureAspectExit(joinpoint types.JoinPointRunType, result 
 	// reset join point if we exit
 	last := len(t.callstack) - 1
 	t.callstack[last].joinPoint = types.JoinPointRunType_Unknown
-	for i := range t.callstack[last].JoinPoints {
+	// the execution being closed is the most recent one of this join point: several
+	// Aspects may be bound to the same join point of one call
+	for i := len(t.callstack[last].JoinPoints) - 1; i >= 0; i-- {
 		if t.callstack[last].JoinPoints[i].Type == joinpoint {
 			t.callstack[last].JoinPoints[i].GasUsed = t.callstack[last].JoinPoints[i].Gas - result.Gas
 			t.callstack[last].JoinPoints[i].processOutput(result.Ret, result.Err)
@@ -342,7 +344,7 @@ func (t *callTracer) CaptureExit(output []byte, gasUsed uint64, err error) {
 	if t.callstack[size-1].joinPoint != types.JoinPointRunType_Unknown {
 		// if currently the call is initiated by aspect, we need to append it
 		// to the calls in aspect frame not current callstack
-		last := len(t.callstack[size-1].JoinPoints)
+		last := len(t.callstack[size-1].JoinPoints) - 1
 		t.callstack[size-1].JoinPoints[last].Calls = append(t.callstack[size-1].JoinPoints[last].Calls, call)
 	} else {
 		// append to callstack otherwise
